@@ -72,22 +72,25 @@ def _step_contract(kind):
         n1 = c.real('n1', 1.0, 2.5, positive=True)
         n2 = c.real('n2', 1.0, 2.5, positive=True)
         cs = CoordinateSystem(z=zs_)
-        if kind == 'plane':
+        if kind in ('plane', 'plane_mirror'):
             geo, R = geos.Plane(cs), math.inf
+        elif kind in ('flat_conic', 'flat_conic_mirror'):
+            R = math.inf                                     # a StandardGeometry of infinite radius is a plane too
+            geo = geos.StandardGeometry(cs, math.inf, c.real('k', -2, 1))
         else:
             R = c.real('R', -80, 80, nonzero=True)
             geo = geos.StandardGeometry(cs, R, c.real('k', -2, 1))
-        surf = surfs.Surface(geo, mats.IdealMaterial(n1, 0.0), mats.IdealMaterial(n2, 0.0), is_reflective=(kind == 'mirror'))
+        surf = surfs.Surface(geo, mats.IdealMaterial(n1, 0.0), mats.IdealMaterial(n2, 0.0), is_reflective=kind.endswith('mirror'))
         y0, u0, z0 = c.real('y0', -3, 3), c.real('u0', -0.3, 0.3), c.real('z0', -10, 10)
         rays = PRm.ParaxialRays(y0, u0, z0, 0.55)
         surf.trace(rays)
         t = zs_ - z0
         ya = y0 + t * u0                                   # transfer [[1, t/n],[0,1]] on (y, n u)
-        if kind == 'mirror':
+        if kind.endswith('mirror'):
             n2s = -n1                                        # index sign reversal
         else:
             n2s = n2
-        phi = 0 if kind == 'plane' else (n2s - n1) / R
+        phi = 0 if R == math.inf else (n2s - n1) / R
         ub = (n1 * u0 - ya * phi) / n2s                    # refraction [[1,0],[-phi,1]]
         c.ensure_eq('C04.step.height', c.val(surf.y), ya)
         c.ensure_eq('C04.step.slope', c.val(surf.u), ub)
@@ -97,7 +100,7 @@ def _step_contract(kind):
     return step
 
 
-for _k in ('sphere', 'plane', 'mirror'):
+for _k in ('sphere', 'plane', 'mirror', 'plane_mirror', 'flat_conic', 'flat_conic_mirror'):
     _step_contract(_k)
 
 
@@ -289,3 +292,62 @@ def _requery_contract(edit):
 
 for _e in ('set_index', 'set_radius', 'set_thickness', 'move_stop'):
     _requery_contract(_e)
+
+
+# ---- reflecting systems: index sign reversal -------------------------------------------------------------------------------------
+KNOWN = {
+    'C04.mirror.magnification_with_index_sign_reversal': {'finding': 'C04-unsigned-index-behind-mirrors', 'role': 'full'},
+    'C04.mirror.invariant_is_the_object_space_value': {'finding': 'C04-unsigned-index-behind-mirrors', 'role': 'full'},
+    'C04.mirror.pin_magnification_has_the_opposite_sign': {'finding': 'C04-unsigned-index-behind-mirrors', 'role': 'pin'},
+    'C04.mirror.pin_invariant_has_the_opposite_sign': {'finding': 'C04-unsigned-index-behind-mirrors', 'role': 'pin'},
+}
+
+
+@contract('C04.mirror.single', [PX + ':Paraxial.marginal_ray', PX + ':Paraxial.chief_ray', PX + ':Paraxial.f2', PX + ':Paraxial.magnification',
+                                PX + ':Paraxial.invariant', 'optiland/optic.py:Optic.n'], ['C04'], max_paths=64)
+def mirror_single(c):
+    """finite object, one mirror (the stop), image plane in front of it: matrix optics with n' = -n behind the mirror.
+    KNOWN FINDING: Optic.n() reports the unsigned index behind a mirror, so magnification() and invariant() come out with the
+    opposite sign there."""
+    Optic = c.mod('optiland.optic').Optic
+    CoordinateSystem = c.mod('optiland.coordinate_system').CoordinateSystem
+    geos, mats, surfs = c.mod('optiland.geometries'), c.mod('optiland.materials'), c.mod('optiland.surfaces')
+    lens = Optic()
+    T0 = c.real('object_distance', 20.0, 300.0, positive=True)
+    R = c.real('R', -200, 200, nonzero=True)
+    n0 = c.real('n0', 1.0, 1.6, positive=True)
+    t = c.real('image_gap', 5.0, 100.0, positive=True)
+    m0 = mats.IdealMaterial(n=n0, k=0.0)
+    sg = lens.surface_group.surfaces
+    sg.append(surfs.ObjectSurface(geos.Plane(CoordinateSystem(z=-T0)), m0))
+    sg.append(surfs.Surface(geos.StandardGeometry(CoordinateSystem(z=0.0), R, 0.0), m0, m0, is_stop=True, is_reflective=True))
+    sg.append(surfs.Surface(geos.Plane(CoordinateSystem(z=-t)), m0, m0))
+    lens.add_wavelength(0.55, is_primary=True)
+    epd = c.real('EPD', 1.0, 10.0, positive=True)
+    lens.set_aperture('EPD', epd)
+    lens.set_field_type('object_height')
+    fy = c.real('max_field', 1.0, 5.0, positive=True)
+    lens.add_field(y=0.0)
+    lens.add_field(y=fy)
+    px = lens.paraxial
+    ya, ua = px.marginal_ray()
+    yb, ub = px.chief_ray()
+    u0 = epd / (2 * T0)                                  # the stop is the mirror: EPL = 0
+    y1 = T0 * u0
+    u1 = -u0 - 2 * y1 / R                                 # (n u)' = n u - y (n' - n)/R with n' = -n
+    c.require(u1 != 0)
+    c.ensure_eq('C04.mirror.marginal_ray_by_index_sign_reversal', c.val(ya[1]), y1)
+    c.ensure_eq('C04.mirror.marginal_ray_by_index_sign_reversal', c.val(ua[1]), u1)
+    c.ensure_eq('C04.mirror.marginal_ray_by_index_sign_reversal', c.val(ya[2]), y1 + (-t) * u1)
+    c.ensure_eq('C04.mirror.chief_ray_by_index_sign_reversal', c.val(yb[1]), 0)
+    c.ensure_eq('C04.mirror.chief_ray_by_index_sign_reversal', c.val(ub[0]), -fy / T0)
+    c.ensure_eq('C04.mirror.chief_ray_by_index_sign_reversal', c.val(ub[1]), fy / T0)           # u' = -u - 2 y / R at y = 0
+    c.ensure_eq('C04.mirror.focal_length_is_half_the_radius', c.val(px.f2()), R / 2)
+    mag_true = n0 * u0 / (-n0 * u1)
+    H0 = n0 * (0 * u0 - 0 * 0) if False else n0 * (fy * u0 - 0 * (-fy / T0))                   # object plane: yb = fy, ya = 0
+    mag = c.val(px.magnification())
+    inv = c.val(px.invariant())
+    c.ensure_eq('C04.mirror.magnification_with_index_sign_reversal', mag, mag_true, sym_only=True)
+    c.ensure_eq('C04.mirror.invariant_is_the_object_space_value', inv, H0, sym_only=True)
+    c.ensure_eq('C04.mirror.pin_magnification_has_the_opposite_sign', mag, -mag_true)
+    c.ensure_eq('C04.mirror.pin_invariant_has_the_opposite_sign', inv, -H0)
